@@ -40,7 +40,7 @@ pub fn def() -> PropDef {
         ],
         run_shard,
         replay,
-        describe: None,
+        describe: Some(describe),
         health,
         exhaustive: None,
     }
@@ -488,6 +488,12 @@ fn run_shard(ctx: &ShardCtx, acc: &mut Acc) {
         acc.sample(|| json!({ "set": set }));
         check_set(&set, acc)
     });
+}
+
+/// the case a crashed shard was working on, rebuilt from its choices
+fn describe(_stream: &str, choices: &[u32]) -> Value {
+    let mut ch = Chooser::new(choices);
+    json!({ "set": gen_set(&mut ch) })
 }
 
 fn replay(case: &Value, acc: &mut Acc) -> CaseResult {
